@@ -11,7 +11,9 @@ Every change is sent exactly once, attached to whatever request goes out next:
 * the ACK / NACK of the next response it receives (`clientRecv`) - which may be the ACK of a response
   that a newer push has already overtaken: by the time the server reads it its nonce is stale.
 The server handles the oldest undelivered request with `shouldRespondDelta`; when that says "respond"
-it sends a response (`sendDelta`) that travels to the client.  It may also push at any time.
+it sends a response (`sendDelta`) that travels to the client.  It may also push at any time.  For a wildcard type
+whose generator does not manage the names (`Ty.setsWatched`: CDS, LDS, NDS, ...) every response that goes out
+REPLACES the recorded names by the names it carries, as the real `pushDeltaXds` does.
 `applied` is a ghost: the fold of the changes carried by the requests the server has handled.
 -/
 namespace IstioModel.C04
@@ -43,8 +45,9 @@ inductive DStep
   | clientWant (add remove : List String)
   | clientFlush
   | clientRecv (nack : Option String)
-  | serverRecv (n : String)
-  | serverPush (n : String) (ok : Bool)
+  /-- `gen`: the names of the resources the answer / push carries (they replace the record of a wildcard type). -/
+  | serverRecv (n : String) (gen : List String)
+  | serverPush (n : String) (ok : Bool) (gen : List String)
 
 def removeAll (l r : List String) : List String := l.filter (fun x => !r.contains x)
 def addAll (l a : List String) : List String := l ++ a.filter (fun x => !l.contains x)
@@ -65,20 +68,20 @@ def dstep (t : Ty) (y : DSys) : DStep → DSys
     | [] => y
     | n :: rest =>
       { y with s2c := rest, c2s := y.c2s ++ [y.outMsg n nack], pendSub := [], pendUnsub := [] }
-  | .serverRecv n =>
+  | .serverRecv n gen =>
     match y.c2s with
     | [] => y
     | m :: rest =>
       match shouldRespondDelta y.srv (m.toReq t) with
       | .crash => y
       | .out true s' =>
-        { y with srv := sendDelta s' t n none true, c2s := rest, s2c := y.s2c ++ [n],
+        { y with srv := sendDelta s' t n (sentNames t gen) true, c2s := rest, s2c := y.s2c ++ [n],
                  applied := applyChange y.applied m.sub m.unsub }
       | .out false s' => { y with srv := s', c2s := rest, applied := applyChange y.applied m.sub m.unsub }
-  | .serverPush n ok =>
+  | .serverPush n ok gen =>
     match y.srv t with
     | none => y
-    | some _ => { y with srv := sendDelta y.srv t n none ok, s2c := if ok then y.s2c ++ [n] else y.s2c }
+    | some _ => { y with srv := sendDelta y.srv t n (sentNames t gen) ok, s2c := if ok then y.s2c ++ [n] else y.s2c }
 
 def DSys.init : DSys :=
   { srv := State.empty, cwant := [], pendSub := [], pendUnsub := [], c2s := [], s2c := [], applied := [] }
